@@ -8,8 +8,8 @@ from libertem_blobfinder.common import gridmatching as grm
 
 PROP = "C17"
 LEAN_MODULE = "BlobfinderModel.Properties.C17"
-GEN_FILES = ["Lattice"]
-FRAGMENTS = ["within_frame", "calc_coords", "regularize"]
+GEN_FILES = ["Lattice", "Polar"]
+FRAGMENTS = ["within_frame", "calc_coords", "regularize", "polar"]
 DRIVER = "drvlattice"
 RULE = ("correspondence: calc_coords / get_indices / frame_peaks / Match.calc_coords of the real code on dyadic "
         "lattices (float arithmetic exact, so selections on the boundary are compared exactly) vs the rational "
